@@ -414,6 +414,13 @@ def handle (op : String) (args : List String) : Except String String :=
       pure (t, c, m, f, g, sc)) args
     let look (n : Bytes) : Option Bytes := (scripts.find? (fun p => p.1 = n)).map (·.2)
     pure (hex (Tar.archive (DebCtl.members mtime control md5 conf trig look)))
+  | "ipkcontroltar" => do
+    let (mtime, control, conf, scripts) ← run1 (do
+      let t ← pNat; let c ← pBytes; let f ← pBytes
+      let sc ← pList (do let n ← pBytes; let b ← pBytes; pure (n, b))
+      pure (t, c, f, sc)) args
+    let look (n : Bytes) : Option Bytes := (scripts.find? (fun p => p.1 = n)).map (·.2)
+    pure (hex (Tar.archive (DebCtl.ipkMembers mtime control conf look)))
   | _ => .error s!"unknown op {op}"
 
 partial def loop (hin : IO.FS.Stream) (hout : IO.FS.Stream) : IO Unit := do
